@@ -84,10 +84,13 @@ def run(ctx):
                      "race_delay": c.get("race_delay"),
                      "cue_map": dict(nc.ids), "outcome_map": dict(no.ids)})
         menc.append((401, wr_events(rwlib.events_to_ids(es, no, nc)) + [c["per"], c["pol"]]))
-    results = sc.run_workers("chunk_worker", jobs, timeout=DEADLINE, jobs=12)
+    results = sc.run_workers("chunk_worker", jobs, timeout=DEADLINE, jobs=12, max_timeouts=2)
     mouts = run_models(menc)
     rep.lap("conversions")
     for c, j, (status, res), mo in zip(conv, jobs, results, mouts):
+        if status == "skipped":
+            rep.bump("skipped_after_timeouts")
+            continue
         n = len(expand(c["lines"], c["freq"]))
         d = {"n_events": n, "per": c["per"], "n_jobs": c["n_jobs"], "pol": c["pol"], "delays": c["delays"],
              "freq": c["freq"], "lines": c["lines"], "fast_poll": c["fast_poll"], "race_delay": c.get("race_delay")}
@@ -164,9 +167,12 @@ def run(ctx):
                           "beta2": rwlib.nd(p["beta2"]), "lam": rwlib.nd(p["lam"]),
                           "delays": [rng.choice([0, 0.02, 0.1]) for _ in range(3)], "fast_poll": rng.random() < 0.7})
             lmeta.append((si, per, method))
-    results = sc.run_workers("chunk_worker", ljobs, timeout=DEADLINE, jobs=12)
+    results = sc.run_workers("chunk_worker", ljobs, timeout=DEADLINE, jobs=12, max_timeouts=2)
     rep.lap("learner_runs")
     for j, (si, per, method), (status, res) in zip(ljobs, lmeta, results):
+        if status == "skipped":
+            rep.bump("skipped_after_timeouts")
+            continue
         st = sets[si]
         d = {"events": st["es"], "events_per_temporary_file": per, "method": method, "n_jobs": j["n_jobs"],
              "p": {k: str(v) for k, v in st["p"].items()}}
